@@ -275,3 +275,74 @@ Theorem C18_code_is_the_cache_key_of_C19 :
              quote_s (Glue_quote.od (n_text n)) = quote (Glue_quote.od (n_text n))).
 Proof. intros n. split; [exact (Glue_quote.code_same n)|exact (Glue_quote.quote_s_is_codec_quote _)]. Qed.
 Print Assumptions C18_code_is_the_cache_key_of_C19.
+
+(* ---------------- FRESHNESS ACROSS PROCESSES (Model/IdentWorkers.v) ----------------
+   A deployment is a list of workers; every worker has its own store (starting empty) and its own
+   digest stream: the cands arguments of its operations ([stream]).  The assumption about the random
+   source is explicit: [independent w1 w2] = no digest occurs in both streams (true for the OS source;
+   FALSE for a generator whose state a fork duplicates: C18_workers_shared_stream_refuted).  The harness
+   unit `processes` ties it: forked workers and fresh interpreters on the real code. *)
+From PV Require Import Model.IdentWorkers Proofs.IdentWorkers_lemmas.
+
+(* one process, by induction over its history, no hypothesis: every text it issues new (transient call,
+   or persistent call that finds nothing) was drawn from ITS stream and was not a key of ITS store *)
+Theorem C18_worker_issues_from_own_stream :
+  (forall c ops d t, In t (issued_texts c d ops) -> In t (stream ops)) /\
+  (forall c d o t, In t (issued_now c d o) -> In t (op_cands o) /\ lookup t d = None).
+Proof. split; [exact issued_texts_in_stream|exact issued_now_spec]. Qed.
+Print Assumptions C18_worker_issues_from_own_stream.
+
+(* two processes with independent streams never issue the same text, whatever their configurations,
+   stores and histories (any operations, any length) *)
+Theorem C18_workers_fresh : forall c1 c2 d1 d2 w1 w2,
+  independent w1 w2 -> forall t, In t (issued_texts c1 d1 w1) -> In t (issued_texts c2 d2 w2) -> False.
+Proof. exact workers_fresh. Qed.
+Print Assumptions C18_workers_fresh.
+
+(* any number of workers: the observable compared with the real forked workers on every run *)
+Theorem C18_deployment_disjoint : forall c ws,
+  independent_all ws -> pairwise_disjointb (worker_texts c ws) = true.
+Proof. exact deployment_disjoint. Qed.
+Print Assumptions C18_deployment_disjoint.
+
+(* step level: a transient identifier issued at any point of one worker's history and one issued at any
+   point of another's have different texts; each resolves to its own user in its own store - no
+   identifier goes to two users *)
+Theorem C18_workers_transient_distinct :
+  forall c1 c2 pre1 pre2 post1 post2 u1 u2 sp1 sp2 nq1 nq2 cands1 cands2 d1 d2 n1 n2,
+  independent (pre1 ++ Transient u1 sp1 nq1 cands1 :: post1) (pre2 ++ Transient u2 sp2 nq2 cands2 :: post2) ->
+  step c1 (run c1 [] pre1) (Transient u1 sp1 nq1 cands1) = (d1, ONid n1) ->
+  step c2 (run c2 [] pre2) (Transient u2 sp2 nq2 cands2) = (d2, ONid n2) ->
+  n_text n1 <> n_text n2 /\ find_local_id d1 n1 = Some u1 /\ find_local_id d2 n2 = Some u2.
+Proof. exact workers_transient_distinct. Qed.
+Print Assumptions C18_workers_transient_distinct.
+
+(* without the assumption (the fork duplicated the generator state: equal streams) the statement is
+   false: the same text goes to u1 in one worker and to u2 in the other *)
+Theorem C18_workers_shared_stream_refuted :
+  let sp1 := Some (s2l "sp1") in
+  let w1 := [Transient (s2l "u1") sp1 None [s2l "a"]] in
+  let w2 := [Transient (s2l "u2") sp1 None [s2l "a"]] in
+  stream w1 = stream w2 /\
+  issued_texts C0 [] w1 = [s2l "a"] /\ issued_texts C0 [] w2 = [s2l "a"] /\
+  find_local_id (run C0 [] w1) (nid_t (s2l "a")) = Some (s2l "u1") /\
+  find_local_id (run C0 [] w2) (nid_t (s2l "a")) = Some (s2l "u2") /\
+  pairwise_disjointb (worker_texts C0 [w1; w2]) = false.
+Proof. vm_compute. repeat split; reflexivity. Qed.
+Print Assumptions C18_workers_shared_stream_refuted.
+
+(* the assumption is satisfiable by non-trivial workers (collision inside a worker, persistent found again) *)
+Example C18_workers_witness :
+  let sp1 := Some (s2l "sp1") in
+  let w1 := [Transient (s2l "u1") sp1 None [s2l "a"]; Transient (s2l "u2") sp1 None [s2l "a"; s2l "b"];
+             Persistent (s2l "u1") sp1 None [s2l "c"]; Persistent (s2l "u1") sp1 None [s2l "d"]] in
+  let w2 := [Transient (s2l "u3") sp1 None [s2l "e"]; Persistent (s2l "u3") sp1 None [s2l "f"]] in
+  independent w1 w2 /\
+  worker_texts C0 [w1; w2] = [[s2l "a"; s2l "b"; s2l "c"]; [s2l "e"; s2l "f"]] /\
+  pairwise_disjointb (worker_texts C0 [w1; w2]) = true.
+Proof.
+  cbv zeta. split; [|vm_compute; split; reflexivity].
+  intros t H1 H2. vm_compute in H1, H2.
+  repeat (destruct H1 as [H1|H1]; [subst t; repeat (destruct H2 as [H2|H2]; [discriminate H2|]); exact H2|]). exact H1.
+Qed.
+Print Assumptions C18_workers_witness.
